@@ -358,6 +358,10 @@ def run_check(pid, tier, seed, jobs=None, write_evidence=True):
         alts = opn if isinstance(opn, (tuple, list)) else (opn,)
         if not any(wrapper.get(o, 0) for o in alts):
             inconclusive.append('deciding wrapper %s saw no event' % '/'.join(alts))
+    n_case_exc = sum(v for k, v in notes.items() if k.startswith('case_exception:'))
+    if cases and n_case_exc > max(5, cases // 100):
+        ex = next((k for k in notes if k.startswith('case_exception_example:')), '')
+        inconclusive.append('%d of %d workload cases ended with an exception that no oracle accounted for (%s)' % (n_case_exc, cases, ex[-300:].replace('\n', ' | ')))
     if evaluations == 0:
         inconclusive.append('oracle judged no event')
     missing_floor = []
